@@ -345,6 +345,17 @@ def r3(ctx, R):
                 and x.args and isinstance(x.args[0], ast.Name) and x.args[0].id == "ref"]
         if not keep:
             R.bad(rb, rb.node, "drained reference reads are not kept for the caller", stmt="refs.append(ref)")
+    R.inst("rollback: a value the failing formula assigned to its own element is dropped")
+    oc = q.calls(rb, name="on_clear_trace")
+    okv = False
+    for c in oc:
+        g = q.guards_of(rb, c)
+        if q.anorm(rb, c.func.value) == "node[OBJ]" and [q.anorm(rb, a) for a in c.args] == ["node[KEY]"] \
+                and g == {("node[OBJ].is_cached", "T"), ("node[OBJ].has_node(node[KEY])", "T")}:
+            okv = True
+    if not okv:
+        R.bad(rb, rb.node, "an element on the failing chain can keep a value: a formula that assigns its own element and then "
+                           "raises leaves the value in data without a graph node", stmt="drop value of the failed element")
     R.inst("rollback: records the node for the error traceback")
     if not q.calls(rb, name="append", recv_endswith="rolledback"):
         R.bad(rb, rb.node, "rollback() does not record the failed node in executor.rolledback",
